@@ -45,15 +45,23 @@ import (
 // model principal -> identity name in vfC11clG
 var vfC11clPrincipal = map[string]string{"C": "self", "D": "d1", "H": "h", "R": "r1", "A": "a"}
 
+// the key types of the principals vary independently over the walks (every pair of types for H and R within 16 walks)
 func (v vfC11clVariant) ident(principal string) vfC11clIdent {
 	name := vfC11clPrincipal[principal]
-	k := 0
-	for i, x := range vfC11clNames {
-		if x == name {
-			k = i
-		}
+	var k int
+	switch principal {
+	case "H":
+		k = v.n
+	case "R":
+		k = v.n / 4
+	case "A":
+		k = v.n/4 + 1 + v.n/16
+	case "C":
+		k = v.n/2 + 1
+	default:
+		k = v.n + 2
 	}
-	return vfC11clG.ids[(v.n+k)%len(vfC11clKeyTypes)][name]
+	return vfC11clG.ids[k%len(vfC11clKeyTypes)][name]
 }
 
 // the bytes an envelope signature covers (RFC 0002): each of domain, payload type, payload prefixed with its
@@ -600,7 +608,7 @@ func (s *vfC11clRsvSys) reply(op vfh.Op) {
 }
 
 func vfC11clRunReserveWalk(t *testing.T, to int, w vfh.Walk, out *vfh.Result) {
-	synctest.Test(t, func(t *testing.T) {
+	vfC11clBubble(t, out, fmt.Sprintf("reserve walk %d", w.Walk), func(t *testing.T) {
 		v := vfC11clVariant{n: w.Walk + int(vfh.Seed())}
 		world := &vfC11clWorld{self: v.ident("C").id, handlers: map[protocol.ID]network.StreamHandler{}, removed: map[protocol.ID]int{}}
 		world.sys, world.peerLim = vfC11clNewLimit(), vfC11clNewLimit()
